@@ -16,4 +16,6 @@ def run(ctx):
     files.update(core.dir_files('harness/c08/vars', 'zzverif/c08/a/github.com/tencent/goom/zzverif/c08/vars'))
     b = ctx.build('c08', core.MODPATH + '/zzverif/c08', files)
     nh, shards = ('30', 2) if not ctx.thorough else ('300', 16)
-    ctx.children(b, shards, run='TestC08', env={'VERIF_C08_HIST': nh}, timeout=1200)
+    ctx.children(b, shards, run='TestC08$', env={'VERIF_C08_HIST': nh}, timeout=1200)
+    # pre-mock values that only the variable refers to, across collections while the mock is in place
+    ctx.children(b, 1, run='TestC08GC$', timeout=300, env={'VERIF_C08_GCROUNDS': '12' if not ctx.thorough else '200'}, what='TestC08GC')
